@@ -360,9 +360,24 @@ void vh_run_case(Ctx &ctx)
             std::string wc = want.substr(0, want.find('\x01'));
             std::string k;
             std::string detail;
+            // libxml2's DTD error messages list the children an element has ("got (eq CDATA ci )"): blank text nodes
+            // show up there as CDATA, and whether they exist depends on the keep-blanks default - the same cause as
+            // the whitespace differences of the raw text
+            auto withoutBlankNodes = [](std::string t) {
+                for (size_t p = t.find(" CDATA"); p != std::string::npos; p = t.find(" CDATA", p)) {
+                    t.erase(p, 6);
+                }
+                for (size_t p = t.find("CDATA "); p != std::string::npos; p = t.find("CDATA ", p)) {
+                    t.erase(p, 6);
+                }
+                return t;
+            };
             if (gc == wc) {
                 k = std::string("impure:") + op + ":whitespace-only";
                 detail = "canonical results agree; the raw text (math strings / printed document) differs from the fresh-process result only in whitespace";
+            } else if (withoutBlankNodes(gc) == withoutBlankNodes(wc)) {
+                k = std::string("impure:") + op + ":whitespace-only";
+                detail = "results agree but for the blank text nodes (CDATA) that libxml2 lists in a DTD error message: " + firstDiff(wc, gc);
             } else {
                 std::string fd = firstDiff(wc, gc);
                 std::string cls = "content";
